@@ -78,6 +78,8 @@ fn fault_menu(thorough: bool) -> Vec<(String, String)> {
     // set at start-up): every later reply is shifted by one unless the reader stops or resynchronises
     v.push(("prefix".into(), "unsupported".into()));
     v.push(("prefix".into(), "success".into()));
+    // the late error reply to a command whose reply is never read (assert, declare-fun, push, ...)
+    v.push(("prefix".into(), "(error \"late reply to an earlier command\")".into()));
     v
 }
 
